@@ -28,6 +28,36 @@ func drawGenRelaxed(t *rapid.T, kind string, depth int) GenCase {
 	return GenCase{S: s, Pieces: ps, Tail: tail, Text: gen.Text(ps, tail)}
 }
 
+// drawGenQuotedPKW renders a sentence with ONE pseudo keyword written back-quoted. The documentation treats such a
+// spelling as a plain identifier, so the sentence is usually rejected; where memefish accepts it anyway (names matched
+// on the decoded identifier: type names, TABLESAMPLE methods, MAX, subscript position keywords) every property over
+// accepted inputs applies to it.
+func drawGenQuotedPKW(t *rapid.T, kind string, depth int) (GenCase, bool) {
+	c := drawGen(t, kind, depth)
+	var idx []int
+	for i, p := range c.Pieces {
+		if p.Lex.K == gen.PKW {
+			idx = append(idx, i)
+		}
+	}
+	if len(idx) == 0 {
+		return c, false
+	}
+	i := idx[rapid.IntRange(0, len(idx)-1).Draw(t, "quote-pkw")]
+	c.Pieces[i].Text = "`" + c.Pieces[i].Text + "`"
+	c.Text = gen.Text(c.Pieces, c.Tail)
+	return c, true
+}
+
+// drawGenLong is drawGen with one very long list (120..330 elements) allowed per sentence.
+func drawGenLong(t *rapid.T, kind string, depth int) GenCase {
+	g := gen.New(t, depth, genAvoid)
+	g.Long = true
+	s := gen.Draw(g, kind)
+	ps, tail := gen.Render(t, s.W, gen.RenderOpts{NoComments: true})
+	return GenCase{S: s, Pieces: ps, Tail: tail, Text: gen.Text(ps, tail)}
+}
+
 // drawGen draws a sentence of the given kind ("" = any) and renders it.
 func drawGen(t *rapid.T, kind string, depth int) GenCase {
 	g := gen.New(t, depth, genAvoid)
